@@ -116,6 +116,12 @@ pub fn fsets() -> &'static FSets {
     })
 }
 
+/// the un-normalized factor set the repository's ISO/TR 52000-2 tests use
+pub fn raw_j() -> &'static Factors {
+    static S: OnceLock<Factors> = OnceLock::new();
+    S.get_or_init(|| RAW_J.parse::<Factors>().expect("raw J"))
+}
+
 /// Named factor set
 pub fn fset(name: &str) -> &'static Factors {
     let s = fsets();
@@ -123,6 +129,7 @@ pub fn fset(name: &str) -> &'static Factors {
         "SKEW" => &s.skew,
         "SKEW+COGEN" => &s.skew_cogen,
         "RAW_J" => &s.raw_j,
+        "RAW_J(unprepared)" => raw_j(),
         loc => &s.reg.iter().find(|(l, _)| l == loc).unwrap_or_else(|| panic!("unknown factor set {loc}")).1,
     }
 }
